@@ -527,6 +527,10 @@ impl<'a> LineBreaker<'a> {
         ]);
         // TeX.2021.864
         let mut diffs: Diffs = Default::default();
+        // TeX.2021.869: the nodes replaced by a discretionary are passed over after the
+        // discretionary itself has been tried; they are never breakpoints. Index of the first
+        // node after the most recent replaced run.
+        let mut replaced_until = 0_usize;
         // This is the loop in TeX.2021.863
         for i in 0..=list.len() {
             let elem = list.get(i);
@@ -564,6 +568,7 @@ impl<'a> LineBreaker<'a> {
                     }
                     Discretionary(discretionary) => {
                         // TeX.2021.869
+                        replaced_until = i + 1 + discretionary.replace_count as usize;
                         disc_width = discretionary
                             .pre_break
                             .iter()
@@ -614,6 +619,7 @@ impl<'a> LineBreaker<'a> {
                     Kern(kern) => {
                         if kern.kind == KernKind::Explicit
                             && auto_breaking
+                            && i >= replaced_until
                             && matches!(list.get(i + 1), Some(Glue(_)))
                         {
                             // List of allowable line breaks in TeXBook chapter 14 p96:
